@@ -313,7 +313,10 @@ def fam_lets():
                 branches.append(head + "i%d ~|> { cap%d } ~=> f%d" % (b, b, b) if b % 2 == 0 else head + "i%d |> g%d" % (b, b))
             out.append(", ".join(branches))
     out += ["let (a, b) = x |> f", "let _ = x, y", "let Some(a) = x", "let ref a = x ~|> f", "let a @ 1 = x",
-            "let a: u8 = x", "let a = let b = c", "let a = x, let a = y"]
+            "let a: u8 = x", "let a = let b = c", "let a = x, let a = y",
+            # the `let` is recognised on the parsed initial expression, not on the branch's first token
+            "~ let x = y |> f", "a, ~ let mut x = y ~|> f", "#[allow(unused)] let x = y |> f", "~ ~ let x = { y } ~=> g, x",
+            "~ let (a, b) = x |> f", "#[allow(unused)] let (a, b) = x"]
     return out
 
 
